@@ -100,7 +100,7 @@ def run_type(i, label, spec, tier, st):
         ctx = case.ctx(ap, False, al)
         # second pass: the same type with constraints given at the call (schema=...), to deserialize and to the schema
         # function alike: another method built from the same compiled factory, another schema; same agreement
-        passes = [None] + ([CALL_SCHEMA] if (first or ap) else [])
+        passes = [None] + ([CALL_SCHEMA] if (first or (ap and al == "id")) else [])
         stop = False
         for call_schema in passes:
             if stop:
